@@ -463,6 +463,6 @@ def replay(rp):
             return 0 if (out == "fail" and not changed) else 1
         return 0 if out == "ok" else 1
     s = "".join(chr(c) for c in rp["source"])
-    out = ec.replay_case(P, rp["grammar"], s, rp["offset"], "ends", decoy=rp.get("decoy"))
+    out = ec.replay_case(P, rp["grammar"], s, rp["offset"], "ends", decoy=rp.get("decoy"), disturbance=rp.get("disturb"))
     print("implementation now:", out, "model:", rp["model"])
     return 0 if out[0].split(" ", 1)[0] == rp["model"].split(" ", 1)[0] else 1
